@@ -569,6 +569,23 @@ def _extract(prog: Program, mod: Module, modname: str, fn: ast.AST, comb_calls: 
                 raise AnalysisError(f"{fn.name}: starred update argument `{short(arg)}` not recognised")
             else:
                 cands.append(arg)
+        resolved = []
+        for cand in cands:
+            if isinstance(cand, ast.Name):
+                val = reaching(fn, cand.id, call)
+                if isinstance(val, ast.Call) and dotted(val.func) == "Candidate":
+                    cand = val
+            elif (
+                isinstance(cand, ast.Subscript)
+                and isinstance(cand.value, ast.Name)
+                and isinstance(cand.slice, ast.Constant)
+                and isinstance(cand.slice.value, int)
+            ):
+                val = reaching(fn, cand.value.id, call)
+                if isinstance(val, (ast.Tuple, ast.List)) and -len(val.elts) <= cand.slice.value < len(val.elts):
+                    cand = val.elts[cand.slice.value]
+            resolved.append(cand)
+        cands = resolved
         for cand in cands:
             if not (isinstance(cand, ast.Call) and dotted(cand.func) == "Candidate"):
                 raise AnalysisError(f"{fn.name}: `{short(cand)}` offered to an entry is not a Candidate(...)")
